@@ -101,6 +101,15 @@ func (p *gateProto) Invoke(ctx context.Context, pkg []byte) []byte {
 	r.started.Store(tick())
 	<-r.gate
 	r.finished.Store(tick())
+	if len(pkg) > 12 && pkg[12] == 3 {
+		// a response far larger than the socket buffers, to a client that reads it slowly (late.go)
+		current.SetPacketTypeFromContext(ctx, basef.TARSNORMAL)
+		b := make([]byte, 12+bigResponse)
+		copy(b, "BIG:")
+		binary.BigEndian.PutUint32(b[4:], uint32(c))
+		binary.BigEndian.PutUint32(b[8:], uint32(s))
+		return netlab.Frame(b)
+	}
 	if len(pkg) > 12 && pkg[12] == 1 {
 		// a one-way request: the real protocol layer records the packet type in the context
 		current.SetPacketTypeFromContext(ctx, basef.TARSONEWAY)
@@ -605,6 +614,31 @@ func main() {
 	// every scenario spends >= 2.5 s in the server's own polling: run them in parallel
 	sem := make(chan struct{}, 32)
 	var wg sync.WaitGroup
+	special := func(f func()) {
+		wg.Add(1)
+		sem <- struct{}{}
+		go func() {
+			defer wg.Done()
+			defer func() { <-sem }()
+			f()
+		}()
+	}
+	for rep := 0; rep < reps; rep++ {
+		for _, pool := range []int{0, 1, 4} {
+			for k, tlsOn := range []bool{false, true} {
+				id++
+				sid, pool, tlsOn, chunk := id, pool, tlsOn, (256<<10)>>uint(rep%2)
+				pause := time.Duration(70+20*k+35*(rep%2)) * time.Millisecond
+				special(func() { slowDrainScenario(sid, pool, tlsOn, chunk, pause) })
+			}
+			for k, late := range []int{250, 700, 1300, 1900} {
+				id++
+				sid, pool, late := id, pool, late+130*rep
+				conns, first, tlsOn := 1+k%3, []int{1, 3, 4, 6, 12}[(k+rep)%5], k == 2
+				special(func() { splitRequestScenario(sid, pool, conns, first, late, tlsOn) })
+			}
+		}
+	}
 	for _, sc := range scs {
 		wg.Add(1)
 		sem <- struct{}{}
